@@ -46,6 +46,8 @@ class Notification(object):
         # ---------------+--------+---------+------+
         #    Maker      | Length |  Type   |  msg |
         # ---------------+--------+---------+------+
+        if len(message) + 19 > 4096:
+            raise ValueError('BGP message of %s octets is larger than 4096' % (len(message) + 19))
         return b'\xff'*16 + struct.pack('!HB', len(message) + 19, self.MSG_NOTIFICATION) + message
 
     def construct(self, error, suberror=0, data=b''):
